@@ -253,6 +253,8 @@ contract(
     params=dict(odb=HashFileDB, used=TSeq(HashInfo), jobs=TOpt(TInt), cache_odb=TOpt(HashFileDB), shallow=TBool, dry=TBool),
     returns=TInt,
     requires=lambda c: O_injective(),
+    # what the proof cannot see: `used` is modelled as a sequence (a one-shot iterator passed as `used` is not), legacy directories on disk
+    bounded=("bounded/gc_inputs.py", 1, 1),
     raises={
         "ObjectDBPermissionError": (lambda c: c.h.get("HashFileDB.read_only", c.odb), lambda c: c.h.raw("HashFileDB.objs") == c.h0.raw("HashFileDB.objs")),
         "FileNotFoundError": (lambda c: Not(c.shallow), lambda c: c.h.raw("HashFileDB.objs") == c.h0.raw("HashFileDB.objs")),
